@@ -4,12 +4,17 @@ spec:     spec/Glob.tla       reference GlobMatch / RefMatches / RefFind over co
                               implementation layer (globs_to_re translation, alternation with a single
                               trailing anchor, re.match vs re.fullmatch, find loop); bounded-exhaustive
                               configurations MC_Glob_*.cfg
-          spec/GlobCache.tla  closed model of the per-paragraph files_pattern() cache: SetFiles / Match /
-                              Find histories incl. the error path (a query that raises, then more queries)
+          spec/GlobCache.tla  closed model of the per-paragraph files_pattern() cache: SetFiles / RawSet / Match /
+                              Find histories incl. the error path (a query that raises, then more queries); raw text,
+                              converted value and compiled pattern are separate (negative control ConvMemo = C16-seedI)
           spec/GlobMemo.tla   histories of direct globs_to_re(list) calls within one process (patterns may
                               contain LF / blanks), interleaved with fresh FilesParagraph objects
-          spec/GlobFind.tla   lookups on ONE document whose Files fields are re-assigned in place between
-                              find_files_paragraph calls (negative control LookupMemo = seeded change C16-seedB)
+          spec/GlobFind.tla   histories of ONE document: Files fields re-assigned in place (property setter, or through
+                              the Deb822 handle the creator of FilesParagraph(data) kept), add_files_paragraph /
+                              add_license_paragraph on documents PARSED with stand-alone License paragraphs anywhere
+                              between the Files paragraphs (every layout is an initial state), dump + parse again;
+                              lookups return the IDENTITY of a paragraph (negative controls LookupMemo = seeded change
+                              C16-seedB, FilesEndCounter = C16-seedJ, ScanStopsAtLicense)
           spec/TraceGlob.tla  trace validation with the reference operators on concrete code points
 binding:  (a) spec -> code: TLC emits one CASE line per pattern list (expected result for EVERY name up
               to the bound), one DOC line per document (expected paragraph index for every name) and
@@ -44,11 +49,52 @@ characters together with their twins as DIFFERENT literals, case hazards, zero-w
 hyphen, lone combining marks and non-BMP characters (never str.isspace() characters inside a Files pattern).
 
 negative controls at specification level (each makes TLC report the named violation; thorough re-runs all,
-quick three of them): Discipline="prefix" (re.match, the defect repaired by ae99ec4) and
-DotAll=FALSE violate MatchesIffGlob, FindFirst=TRUE violates LastWins, StaleCache=TRUE and
-KeyBeforeTranslate=TRUE (seeded change C16-seedC) violate SameResult, MemoKeyJoined=TRUE with JoinSep =
-LF / blank / none (seeded change C16-seedD) violates OutFaithful, LookupMemo=TRUE violates FindIsLast
-(quick runs prefix, KeyBeforeTranslate and MemoKeyJoined/LF).
+quick four of them): Discipline="prefix" (re.match, the defect repaired by ae99ec4) and
+DotAll=FALSE violate MatchesIffGlob, FindFirst=TRUE violates LastWins, StaleCache=TRUE,
+KeyBeforeTranslate=TRUE (seeded change C16-seedC) and ConvMemo=TRUE (converted Files value memoised per
+object, dropped by the setter only: C16-seedI) violate SameResult, MemoKeyJoined=TRUE with JoinSep =
+LF / blank / none (seeded change C16-seedD) violates OutFaithful, LookupMemo=TRUE, FilesEndCounter=TRUE
+(insert position of add_files_paragraph kept as a counter: C16-seedJ; also violates ImplOrder) and
+ScanStopsAtLicense=TRUE violate FindIsLast (quick runs prefix, ConvMemo, FilesEndCounter and MemoKeyJoined/LF).
+
+identity.  find_files_paragraph is judged by the IDENTITY of the paragraph it returns (DESIGN.md: "identity of the
+returned paragraph"): the number of the paragraph in the order the Files paragraphs came into the document (text
+order for a parsed document, then every add_files_paragraph).  The harness follows the objects (`is`) and puts the
+number into an extra field (X-Tag) of every paragraph it writes, so the identity survives dump + parse.  A position
+in all_files_paragraphs() is NOT used: a paragraph inserted at the wrong place would shift the positions with it.
+
+API surface / input forms (notes/API_SURFACE.md, notes/SIZE_STRESS.md part 4; harness/forms_c16.py) -> leg:
+  FilesParagraph.create(files, ..)                        replay match/doc/cache/find/memo, trace   ("prog", origin create)
+  p.files = list / tuple (setter), after the cache is warm  replay (route prog-set, setfiles edges), trace
+  FilesParagraph(data) / (data, strict=False) over a Deb822 the caller keeps: built from a dict, from the lines of
+      the paragraph, taken from Deb822.iter_paragraphs     replay match/doc/cache/find (routes prog-ctor, prog-raw,
+                                                          prog-text, prog-iter, prog-mix; origins of addfiles), trace
+  Files rewritten THROUGH THAT Deb822 (data['Files'] / ['files'] / ['FILES'] = text in any layout, data.update)
+                                                          rawset edges of GlobCache / GlobFind, route prog-raw, trace;
+      in domain: the RestrictedWrapper docstring lets the creator keep the Deb822, the wrapper shows the new text
+      (p['Files'], p.files, dump()), so "its patterns" are the new ones; del data['Files'] (a Files paragraph
+      without Files field) is outside the statement and never done
+  a second FilesParagraph wrapper over the same Deb822     matches() of cache / trace histories rotate to the alias
+  a paragraph object that belongs to two documents         origin "borrowed" of addfiles (find / trace histories)
+  other fields edited (copyright / license / comment setters, p['X-..'] = .., raw Copyright / License)
+                                                          touch events of the trace leg (must change nothing)
+  p.matches(name), p.files_pattern() (through matches)     every leg
+  globs_to_re(list) directly, .fullmatch                   replay direct / memo, trace translate / query
+  Copyright(sequence): io.StringIO, list of str lines with / without newline, tuple, generator of str / bytes lines,
+      list of bytes lines, one str / one bytes, io.BytesIO, real file text / binary / unbuffered, BufferedReader and
+      TextIOWrapper over a raw stream with short reads, GzipFile / gzip text / BZ2File / LZMAFile over real files,
+      SpooledTemporaryFile text / binary; strict=False, encoding='utf-8' given; bytes with legacy-encoded lines
+                                                          replay doc / find / match (rotating sample), trace;
+      with a line end exactly at / one before / one after 2^9..2^17 (padded header field, single line or folded;
+      inside a Files value, between fields, at a separator, at the end): replay doc / find (ctx.extra aligned_cases)
+  Copyright() + add_files_paragraph / add_license_paragraph   routes prog*, addfiles / addlicense edges on documents of
+      every origin (parsed with License paragraphs before / between / after the Files paragraphs, programmatic,
+      re-parsed), trace
+  Copyright.find_files_paragraph(name)                     replay doc / cache / find, trace (identity)
+  c.dump() / c.dump(f) + Copyright(..) again               reparse edges of GlobFind, trace (not on legacy documents:
+      what a legacy line decodes to is unspecified and need not survive a dump)
+  all_files_paragraphs() / all_paragraphs() / iteration order, Header, License paragraphs themselves: not observables
+      of C16 (only used to set documents up); there is no public way to remove a paragraph.
 
 Domain decisions (read off copyright.py and the property's quantifier "patterns over literals, '*', '?',
 escapes and newlines"): the Files field is whitespace-separated, so a pattern that contains whitespace
@@ -73,13 +119,14 @@ import re
 import time
 
 import core
+import forms_c16 as fm
 import size_c16 as sz
 from lts import LTS, skey, strip
 
 MANIFEST = dict(
-    technique="TLA+ spec (Glob: recursive glob reference + regex-translation/alternation/anchor/match-discipline implementation layer; GlobCache: per-paragraph files_pattern cache machine incl. its error path; GlobMemo: process-wide histories of direct globs_to_re calls) model-checked by TLC over all pattern lists and names up to a bound; expected results for every (pattern list, name) and (document, name) emitted by TLC and replayed into FilesParagraph.matches / parsed paragraphs / find_files_paragraph; recorded histories validated by TLC (TraceGlob)",
-    text="TLC enumerates every list of <= 2 patterns of length <= 2 over {a, *, ?, backslash, LF} against every name up to length 2 (thorough, with 'b', '/' and '.' added: 1 pattern x <= 3 with names <= 4, 2 x <= 2 with names <= 3, and 2 x <= 3 with names <= 3 over the 4 symbols a * ? backslash) and checks that the model of globs_to_re + fullmatch agrees with the recursive glob reference, that exactly the ill-formed lists raise, and that the find loop returns the last matching paragraph of every document of <= 3 paragraphs; the re.match discipline (defect fixed by ae99ec4), a non-DOTALL dot, first-match-wins and a stale cache are rejected by TLC in every run. The expected results printed by TLC are replayed on the real code through create(), text parsing with multi-line Files fields, Files re-assignment (cache) and find_files_paragraph under literal concretizations chosen to hit re.escape and flags; random Unicode histories are validated by TLC against the reference. One paragraph object is also driven through error-path histories (a query that raised the format error, further queries, Files set to a legal value and back) from the closed cache model, and lists whose joined text coincides (['a\\nb'] vs ['a','b'], blank, no separator, '|') are translated in both orders within the process from the memo model; a cache key stored before translation and a memo keyed by the joined text are rejected by TLC.",
-    note="Small-scope: bounds above; concretization of literal symbols is sampled (seeded). Patterns containing whitespace (LF, blanks) are only reachable through globs_to_re(list) and are judged there (globs_to_re(ps).fullmatch(name)). Unspecified: lists with an empty pattern, the empty list, find on documents with an ill-formed paragraph (ValueError or last well-formed match). Sizes beyond what TLC scans (patterns up to 4097+ characters, names to 64 KiB, 200 patterns, 1000 paragraphs) are reached by the block and filler arguments of harness/size_c16.py (the block argument is itself model-checked for L = 3). Trusted: TLC, the 1:1 renaming of literal code points, those two arguments, the projection (bool of matches(), identity index of the returned paragraph).",
+    technique="TLA+ spec (Glob: recursive glob reference + regex-translation/alternation/anchor/match-discipline implementation layer; GlobCache: per-paragraph files_pattern cache machine incl. its error path and Files rewritten through the underlying Deb822; GlobMemo: process-wide histories of direct globs_to_re calls; GlobFind: histories of one document -- Files edited, paragraphs added to parsed documents with License paragraphs in between, dump + re-parse -- with lookups judged by paragraph identity) model-checked by TLC over all pattern lists and names up to a bound; expected results for every (pattern list, name) and (document, name) emitted by TLC and replayed into FilesParagraph.matches / parsed paragraphs / find_files_paragraph; recorded histories validated by TLC (TraceGlob)",
+    text="TLC enumerates every list of <= 2 patterns of length <= 2 over {a, *, ?, backslash, LF} against every name up to length 2 (thorough, with 'b', '/' and '.' added: 1 pattern x <= 3 with names <= 4, 2 x <= 2 with names <= 3, and 2 x <= 3 with names <= 3 over the 4 symbols a * ? backslash) and checks that the model of globs_to_re + fullmatch agrees with the recursive glob reference, that exactly the ill-formed lists raise, and that the find loop returns the last matching paragraph of every document of <= 3 paragraphs; the re.match discipline (defect fixed by ae99ec4), a non-DOTALL dot, first-match-wins and a stale cache are rejected by TLC in every run. The expected results printed by TLC are replayed on the real code through create(), text parsing with multi-line Files fields, Files re-assignment (cache) and find_files_paragraph under literal concretizations chosen to hit re.escape and flags; random Unicode histories are validated by TLC against the reference. One paragraph object is also driven through error-path histories (a query that raised the format error, further queries, Files set to a legal value and back) from the closed cache model, and lists whose joined text coincides (['a\\nb'] vs ['a','b'], blank, no separator, '|') are translated in both orders within the process from the memo model; a cache key stored before translation and a memo keyed by the joined text are rejected by TLC. Histories of one document come from the closed model GlobFind (every layout of <= 3 Files and <= 2 stand-alone License paragraphs is a parsed document the history may start from): Files rewritten through the property setter or through the Deb822 object the creator of FilesParagraph(data) kept, add_files_paragraph / add_license_paragraph, dump and parse again, with every lookup judged by the IDENTITY of the returned paragraph (followed by object identity and by a tag field that survives a dump); a memoised converted Files value, an insert position kept as a counter and a scan that stops at a License paragraph are rejected by TLC. Documents reach Copyright() through every kind of line sequence and file object (text/binary/unbuffered files, short reads, gzip/bz2/lzma, spooled files, generators), a rotating sample with a line end placed exactly at / next to 2^9..2^17.",
+    note="Small-scope: bounds above; concretization of literal symbols is sampled (seeded). Patterns containing whitespace (LF, blanks) are only reachable through globs_to_re(list) and are judged there (globs_to_re(ps).fullmatch(name)). Unspecified: lists with an empty pattern, the empty list, find on documents with an ill-formed paragraph (ValueError or last well-formed match), a Files paragraph whose Files field was deleted through the Deb822 handle (never done), dump + re-parse of documents with legacy-encoded lines (never done). Document order is the order in which the Files paragraphs came into the document (add_files_paragraph: behind the last Files paragraph); the position of License paragraphs is not an observable. Sizes beyond what TLC scans (patterns up to 4097+ characters, names to 64 KiB, 200 patterns, 1000 paragraphs) are reached by the block and filler arguments of harness/size_c16.py (the block argument is itself model-checked for L = 3). Trusted: TLC, the 1:1 renaming of literal code points, those two arguments, the projection (bool of matches(), identity index of the returned paragraph).",
     design="5 (C16)")
 
 W = int(os.environ.get("VERIF_TLC_WORKERS", "8"))
@@ -217,7 +264,7 @@ class _Textual:
     looked at (chardet's guess may vary); only matches / find_files_paragraph are judged."""
 
     def __contains__(self, route):
-        return route in ("text", "lines", "bytes") or route.startswith("legacy:")
+        return route in ("text", "lines", "bytes") or route.startswith("legacy:") or route.startswith("fobj:")
 
 
 TEXTUAL = _Textual()
@@ -245,9 +292,9 @@ def legacy_document(seed, paras, order, lays):
             else:
                 chunks.append(LICPARA.encode("utf-8"))
             continue
-        text = files_para_text(paras[it], lays[it])
+        text = files_para_text(paras[it], lays[it], it + 1)
         files_line, rest = text.split("\nCopyright: ", 1)
-        files_b = (files_line + "\n").encode("utf-8")
+        files_b = ("X-Tag: p%d\n" % (it + 1) + files_line + "\n").encode("utf-8")
         how = r.choice(["before", "before", "after", "comment-before", "comment-after"]) if (force or r.random() < 0.5) else "none"
         lg = r.choice(LEGACY)
         if how == "before":          # the Copyright field (legacy bytes) listed BEFORE the Files field
@@ -269,51 +316,235 @@ def legacy_document(seed, paras, order, lays):
     return data
 HEADER = "Format: https://www.debian.org/doc/packaging-manuals/copyright-format/1.0/\n"
 LICPARA = "License: MIT\n Permission is hereby granted.\n"
+SCRATCH = None          # directory for real files behind file-object forms (ctx.work; set by run / replay)
+FORMS = None            # forms_c16.Schedule of this run
 
 
-def files_para_text(pats, lay):
-    v = lay["first"] + pats[0] + "".join(s + p for s, p in zip(lay["seps"], pats[1:]))
-    return "Files:%s%s\nCopyright: 2024 Someone\nLicense: GPL-2+\n" % ("" if lay["first"] else " ", v)
+def field_text(pats, lay):
+    """the raw text of a Files field holding pats, laid out as lay says"""
+    return lay["first"] + pats[0] + "".join(s + p for s, p in zip(lay["seps"], pats[1:]))
 
 
-def build_doc(route, paras, order, lays):
-    """paras: list of lists of pattern strings; order: sequence of paragraph indexes and 'L'
-    (standalone License paragraphs in between). Returns the Copyright object."""
+def files_para_text(pats, lay, tag=None):
+    """tag: identity of the paragraph, carried in an extra field so that it survives dump + parse"""
+    return "Files:%s%s\nCopyright: 2024 Someone\nLicense: GPL-2+\n%s" % (
+        "" if lay["first"] else " ", field_text(pats, lay), "" if tag is None else "X-Tag: p%d\n" % tag)
+
+
+# how a Files paragraph comes into being programmatically.  With a HANDLE: the Deb822 object handed to
+# FilesParagraph(data) is kept by the harness, as the RestrictedWrapper docstring allows its creator to
+ORIGINS = ["create", "set", "ctor", "raw", "text", "iter", "borrowed", "ctor-lax"]
+TEXT_ORIGINS = ("ctor", "raw", "text", "iter", "borrowed", "ctor-lax")
+PROG_ROUTES = {"prog": "create", "prog-set": "set", "prog-ctor": "ctor", "prog-raw": "raw", "prog-text": "text",
+               "prog-iter": "iter", "prog-borrow": "borrowed", "prog-mix": None}
+REPARSE_KINDS = ["stringio", "lines", "lines-nonl", "gen-str", "bytesio", "bytes-lines", "file-text", "file-bin", "shortread",
+                 "spooled-text", "gzip", "whole-bytes"]
+TOUCHES = ["copyright", "license", "comment", "custom", "raw-copyright", "raw-license", "comment-none"]
+
+
+def make_paragraph(pats, origin, lay, tag):
+    """-> (FilesParagraph, Deb822 handle or None)"""
     from debian import copyright as C
+    from debian import deb822
+    d = None
+    if origin == "create":
+        p = C.FilesParagraph.create(list(pats), "2024 Someone", C.License("GPL-2+"))
+    elif origin == "set":           # fill the cache with another value first, then assign Files
+        p = C.FilesParagraph.create(["zz-placeholder*"], "2024 Someone", C.License("GPL-2+"))
+        p.matches("zz-placeholder1")
+        p.files = list(pats)
+    elif origin in ("ctor", "raw", "ctor-lax"):
+        value = field_text(pats, lay)
+        d = deb822.Deb822({"Files": "zz-placeholder*" if origin == "raw" else value,
+                           "Copyright": "2024 Someone", "License": "GPL-2+"})
+        p = C.FilesParagraph(d, strict=False) if origin == "ctor-lax" else C.FilesParagraph(d)
+        if origin == "raw":         # used once, then the Files field is rewritten through the handle
+            p.matches("zz-placeholder1")
+            d["Files"] = value
+    elif origin == "text":
+        d = deb822.Deb822(files_para_text(pats, lay).split("\n"))
+        p = C.FilesParagraph(d)
+    elif origin == "iter":
+        d = next(iter(deb822.Deb822.iter_paragraphs(io.StringIO(files_para_text(pats, lay)))))
+        p = C.FilesParagraph(d)
+    elif origin == "borrowed":      # a paragraph object that also belongs to another, parsed document
+        other = C.Copyright(io.StringIO(HEADER + "\n" + files_para_text(pats, lay)))
+        p = list(other.all_files_paragraphs())[0]
+    else:
+        raise core.MachineryError("unknown paragraph origin %r" % (origin,))
+    p["X-Tag"] = "p%d" % tag
+    return p, d
+
+
+class Doc:
+    """one live document under test and what the harness knows about it: objs[k-1] = the object of the Files
+    paragraph with identity k (GlobFind.tla), data[k-1] = the Deb822 handle kept by its creator (or None),
+    alias[k-1] = a second FilesParagraph wrapper over the same Deb822 (or None)"""
+
+    def __init__(self, c):
+        self.c = c
+        self.objs, self.data, self.alias = [], [], []
+        self.nraw = 0
+
+    @classmethod
+    def parsed(cls, c, n):
+        self = cls(c)
+        found = {}
+        total = 0
+        for p in c.all_files_paragraphs():
+            total += 1
+            try:
+                found[p["X-Tag"]] = p
+            except Exception:
+                pass
+        want = ["p%d" % (i + 1) for i in range(n)]
+        if total != n or sorted(found) != sorted(want):
+            raise LookupError("document shows %d Files paragraphs (tags %s), built with %d"
+                              % (total, ",".join(sorted(found)[:8]), n))
+        self.objs = [found[t] for t in want]
+        self.data = [None] * n
+        self.alias = [None] * n
+        return self
+
+    def find(self, name):
+        """identity of the returned paragraph, 0 = None, -1 = ValueError, -2 = another exception,
+        -3 = returned something that is not a Files paragraph of the document"""
+        try:
+            r = self.c.find_files_paragraph(name)
+        except ValueError:
+            return -1
+        except Exception:
+            return -2
+        if r is None:
+            return 0
+        for i, p in enumerate(self.objs):
+            if p is r:
+                return i + 1
+        return -3
+
+    def matches(self, k, name, alias=False):
+        p = self.alias[k] if alias and self.alias[k] is not None else self.objs[k]
+        return obs_match(p, name)
+
+    def addfiles(self, pats, origin, lay):
+        from debian import copyright as C
+        p, d = make_paragraph(pats, origin, lay, len(self.objs) + 1)
+        self.c.add_files_paragraph(p)
+        self.objs.append(p)
+        self.data.append(d)
+        self.alias.append(C.FilesParagraph(d) if d is not None else None)
+
+    def addlicense(self):
+        from debian import copyright as C
+        self.c.add_license_paragraph(C.LicenseParagraph.create(C.License("MIT", "Permission is hereby granted.")))
+
+    def setfiles(self, k, pats):
+        self.objs[k].files = list(pats)
+
+    def rawset(self, k, pats, lay):
+        """through the handle where the harness has one (else the setter: same step of the model)"""
+        d = self.data[k]
+        if d is None:
+            self.objs[k].files = tuple(pats)
+            return
+        self.nraw += 1
+        value = field_text(pats, lay)
+        if self.nraw % 4 == 3:
+            d.update({"Files": value})
+        else:
+            d[("Files", "files", "FILES")[self.nraw % 3]] = value
+
+    def touch(self, k, what):
+        """edit something else of paragraph k: no lookup may depend on it"""
+        from debian import copyright as C
+        p, d = self.objs[k], self.data[k]
+        if what == "copyright":
+            p.copyright = "2025 Somebody Else\n 2026 And Another"
+        elif what == "license":
+            p.license = C.License("Expat", "Permission is hereby granted.\n.\nAS IS.")
+        elif what == "comment":
+            p.comment = "files: * ? \\"
+        elif what == "comment-none":
+            p.comment = None
+        elif what == "custom" or d is None:
+            p["X-Note"] = "Files: *"
+        elif what == "raw-copyright":
+            d["Copyright"] = "1999 Raw"
+        else:
+            d["License"] = "ISC"
+
+    def reparse(self, kind, to_fd):
+        """the document dumped (returned string / file argument) and parsed again: new objects, tags survive"""
+        from debian import copyright as C
+        if to_fd:
+            f = io.StringIO()
+            self.c.dump(f)
+            text = f.getvalue()
+        else:
+            text = self.c.dump()
+        obj, closers = fm.open_form(kind, text, SCRATCH)
+        try:
+            c2 = C.Copyright(obj)
+        finally:
+            fm.close_all(closers)
+        new = Doc.parsed(c2, len(self.objs))
+        self.c, self.objs, self.data, self.alias = c2, new.objs, new.data, new.alias
+
+
+def build_doc_ex(route, paras, order, lays):
+    """paras: list of lists of pattern strings; order: sequence of paragraph indexes (ascending) and 'L'
+    (stand-alone License paragraphs in between).  Textual routes give exactly that layout; programmatic
+    routes call add_files_paragraph / add_license_paragraph in that order (so the License paragraphs end
+    up behind the Files paragraphs).  Returns the Doc."""
+    from debian import copyright as C
+    n = len(paras)
     if route.startswith("legacy:"):
         import warnings
         with warnings.catch_warnings():
             warnings.simplefilter("ignore")
-            return C.Copyright(legacy_document(route[7:], paras, order, lays))
+            return Doc.parsed(C.Copyright(legacy_document(route[7:], paras, order, lays)), n)
+    if route.startswith("fobj:"):
+        spec = fm.parse_route(route)
+        body = "\n" + "\n".join(LICPARA if it == "L" else files_para_text(paras[it], lays[it], it + 1) for it in order)
+        text, _ = fm.steer(HEADER, body, spec)
+        obj, closers = fm.open_form(spec["kind"], text, SCRATCH)
+        kw = {}
+        if "s" in spec["flags"]:
+            kw["strict"] = False
+        if "e" in spec["flags"]:
+            kw["encoding"] = "utf-8"
+        try:
+            return Doc.parsed(C.Copyright(obj, **kw), n)
+        finally:
+            fm.close_all(closers)
     if route in TEXTUAL:
         parts = [HEADER]
         for it in order:
-            parts.append(LICPARA if it == "L" else files_para_text(paras[it], lays[it]))
+            parts.append(LICPARA if it == "L" else files_para_text(paras[it], lays[it], it + 1))
         text = "\n".join(parts)
         if route == "lines":
-            return C.Copyright([ln + "\n" for ln in text.split("\n")])
+            return Doc.parsed(C.Copyright([ln + "\n" for ln in text.split("\n")]), n)
         if route == "bytes":
-            return C.Copyright([(ln + "\n").encode("utf-8") for ln in text.split("\n")])
-        return C.Copyright(io.StringIO(text))
-    c = C.Copyright()
+            return Doc.parsed(C.Copyright([(ln + "\n").encode("utf-8") for ln in text.split("\n")]), n)
+        return Doc.parsed(C.Copyright(io.StringIO(text)), n)
+    if route not in PROG_ROUTES:
+        raise core.MachineryError("unknown route %r" % (route,))
+    doc = Doc(C.Copyright())
     for it in order:
         if it == "L":
-            c.add_license_paragraph(C.LicenseParagraph.create(C.License("MIT", "Permission is hereby granted.")))
+            doc.addlicense()
         else:
-            if route == "prog-set":      # fill the cache with another value first, then assign Files
-                p = C.FilesParagraph.create(["zz-placeholder*"], "2024 Someone", C.License("GPL-2+"))
-                p.matches("zz-placeholder1")
-                p.files = list(paras[it])
-            else:
-                p = C.FilesParagraph.create(list(paras[it]), "2024 Someone", C.License("GPL-2+"))
-            c.add_files_paragraph(p)
-    return c
+            if it != len(doc.objs):
+                raise core.MachineryError("paragraph indexes of a programmatic document must ascend")
+            origin = PROG_ROUTES[route] or ORIGINS[(it + len(paras[it]) + n) % len(ORIGINS)]
+            doc.addfiles(paras[it], origin, lays[it])
+    return doc
 
 
 def build_para(route, pats, lay):
-    c = build_doc(route, [pats], [0], [lay])
-    ps = list(c.all_files_paragraphs())
-    if len(ps) != 1:
+    doc = build_doc_ex(route, [pats], [0], [lay])
+    ps = list(doc.c.all_files_paragraphs())
+    if len(ps) != 1 or ps[0] is not doc.objs[0]:
         raise LookupError("document with one Files paragraph shows %d" % len(ps))
     return ps[0]
 
@@ -326,23 +557,6 @@ def obs_match(p, name):
     except Exception as e:          # observation, not a harness failure
         return "EXC:" + type(e).__name__
     return "match" if r else "nomatch"
-
-
-def obs_find(c, name):
-    """1-based index (by identity) of the returned paragraph, 0 = None, -1 = ValueError,
-    -2 = another exception, -3 = returned something that is not a Files paragraph of the document"""
-    try:
-        r = c.find_files_paragraph(name)
-    except ValueError:
-        return -1
-    except Exception:
-        return -2                   # any other exception
-    if r is None:
-        return 0
-    for i, p in enumerate(c.all_files_paragraphs()):
-        if p is r:
-            return i + 1
-    return -3                       # an object that is not one of the document's Files paragraphs
 
 
 def all_names(nsigma, maxlen):
@@ -428,8 +642,8 @@ def check_size_doc(d, fexp, sc, positions, fillers, route, lays):
     for i in range(1, total + 1):
         paras.append(sc.patterns(d[at[i]]) if i in at else next(fi))
     try:
-        c = build_doc(route, paras, list(range(total)), lays)
-        nfiles = len(list(c.all_files_paragraphs()))
+        c = build_doc_ex(route, paras, list(range(total)), lays)
+        nfiles = len(list(c.c.all_files_paragraphs()))
     except Exception as e:
         if isinstance(e, ValueError) and any(x[1] == -1 for x in fexp):
             return None
@@ -441,7 +655,7 @@ def check_size_doc(d, fexp, sc, positions, fillers, route, lays):
         return positions[k - 1] if k > 0 else k
 
     for nm, strict, lenient in fexp:
-        got = obs_find(c, sc.name(nm))
+        got = c.find(sc.name(nm))
         if got != pos(strict) and not (strict == -1 and got == pos(lenient)):
             return (list(nm), pos(strict) if strict != -1 else "ValueError (or %d)" % pos(lenient), got)
     return None
@@ -520,16 +734,16 @@ def check_doc_case(d, fexp, cmap, route, order, lays):
     """one document against every name; fexp: list of (name, strict, lenient)"""
     paras = [[cstr(cmap, p) for p in ps] for ps in d]
     try:
-        c = build_doc(route, paras, order, lays)
-        nfiles = len(list(c.all_files_paragraphs()))
+        c = build_doc_ex(route, paras, order, lays)
+        nfiles = len(list(c.c.all_files_paragraphs()))
     except Exception as e:
         if isinstance(e, ValueError) and any(x[1] == -1 for x in fexp):
             return None             # an ill-formed paragraph reported eagerly
-        return (None, "a document with Files paragraphs %r" % (paras,), "construction failed: %s: %s" % (type(e).__name__, e))
+        return (None, "a document with Files paragraphs %s" % (brief(paras),), "construction failed: %s: %s" % (type(e).__name__, str(e)[:300]))
     if nfiles != len(d):
         return (None, "%d Files paragraphs" % len(d), "document shows %d" % nfiles)
     for nm, strict, lenient in fexp:
-        got = obs_find(c, cstr(cmap, nm))
+        got = c.find(cstr(cmap, nm))
         if got != strict and not (strict == -1 and got == lenient):
             exp = strict if strict != -1 else "ValueError (or %d)" % lenient
             return (list(nm), exp, got)
@@ -540,11 +754,10 @@ def run_cache_path(start, path, cmap, route="prog", bad=()):
     """replay a behaviour of the cache model; returns None or a message.  bad: the ill-formed
     pattern lists of the pool (skey), for which an eager ValueError is accepted as well"""
     try:
-        c = build_doc(route, [[cstr(cmap, g) for g in start]], [0], [{"first": "", "seps": [" "] * (len(start) - 1)}])
-        objs = list(c.all_files_paragraphs())
-        if len(objs) != 1:
+        c = build_doc_ex(route, [[cstr(cmap, g) for g in start]], [0], [{"first": "", "seps": [" "] * (len(start) - 1)}])
+        objs = list(c.c.all_files_paragraphs())
+        if len(objs) != 1 or objs[0] is not c.objs[0]:
             raise LookupError("document with one Files paragraph shows %d" % len(objs))
-        p = objs[0]
     except Exception as e:
         if isinstance(e, ValueError) and skey(start) in bad:
             return None
@@ -552,64 +765,117 @@ def run_cache_path(start, path, cmap, route="prog", bad=()):
     for i, e in enumerate(path):
         a = e["args"][0]
         if e["op"] == "find":
-            k = obs_find(c, cstr(cmap, a))
+            k = c.find(cstr(cmap, a))
             got = {1: "found", 0: "none", -1: "FormatError"}.get(k, "EXC(%s)" % k)
             what = "find_files_paragraph(%r) on the document whose only Files paragraph has Files %r" % (
                 cstr(cmap, a), [cstr(cmap, g) for g in e["from"]["files"]])
             if e["res"] == "FormatError" and got == "none":
                 continue            # ill-formed paragraph skipped instead of reported: unspecified for find
-        elif e["op"] == "setfiles":
+        elif e["op"] in ("setfiles", "rawset"):
+            new = [cstr(cmap, g) for g in a]
             try:
-                p.files = [cstr(cmap, g) for g in a]
+                if e["op"] == "rawset":
+                    c.rawset(0, new, {"first": ["", "\n ", ""][i % 3], "seps": [SEPS[(i + j) % len(SEPS)] for j in range(len(new) - 1)]})
+                else:
+                    c.setfiles(0, new)
                 got = "ok"
             except Exception as ex:
                 if isinstance(ex, ValueError) and skey(a) in bad:
                     return None     # reported eagerly; what the object holds afterwards is not specified
                 got = "EXC:" + type(ex).__name__
-            what = "files = %r" % ([cstr(cmap, g) for g in a],)
+            what = ("files = %r" if e["op"] == "setfiles" or c.data[0] is None else "Files := %r through the Deb822 the creator kept") % (new,)
         else:
-            got = obs_match(p, cstr(cmap, a))
-            what = "matches(%r) with Files %r" % (cstr(cmap, a), [cstr(cmap, g) for g in e["from"]["files"]])
+            alias = i % 3 == 2
+            got = c.matches(0, cstr(cmap, a), alias)
+            what = "matches(%r)%s with Files %r" % (cstr(cmap, a), " on a second wrapper over the same Deb822" if alias and c.alias[0] is not None else "",
+                                                    [cstr(cmap, g) for g in e["from"]["files"]])
         if got != e["res"]:
             return "step %d %s: outcome %s, model says %s" % (i + 1, what, got, e["res"])
     return None
 
 
-def run_find_path(start, path, cmap, route, order, lays):
-    """replay a behaviour of GlobFind on ONE Copyright object: Files fields re-assigned in place between
-    lookups; returns None or a message"""
-    paras = [[cstr(cmap, g) for g in ps] for ps in start]
+def lay_order(lay):
+    """layout of GlobFind.tla (0 = License paragraph, k = Files paragraph k) -> order of build_doc_ex"""
+    return ["L" if k == 0 else k - 1 for k in lay]
+
+
+def trailing_licenses_only(lay):
+    fs = [i for i, k in enumerate(lay) if k != 0]
+    return not fs or all(k != 0 for k in lay[:fs[-1] + 1])
+
+
+def run_find_path(start, path, cmap, route, lays, seed, bad=()):
+    """replay a behaviour of GlobFind on ONE document: Files fields re-assigned in place (setter / through the
+    Deb822 handle), paragraphs added, the document dumped and parsed again between lookups; the result of a
+    lookup is the IDENTITY of the returned paragraph.  How a step is carried out (origin of an added
+    paragraph, layout of a raw Files text, form of the re-parse) is drawn from a generator seeded with
+    `seed`.  bad: ill-formed pattern lists of the pool (skey), for which an eager ValueError is accepted.
+    Returns None or a message"""
+    r = random.Random("findconc-%s" % (seed,))
+    paras = [[cstr(cmap, g) for g in ps] for ps in start["d"]]
+    illformed = [skey(ps) in bad for ps in start["d"]]
     try:
-        c = build_doc(route, paras, order, lays)
-        objs = list(c.all_files_paragraphs())
-    except ValueError:
-        return None                 # an ill-formed list of the pool reported eagerly
+        doc = build_doc_ex(route, paras, lay_order(start["lay"]), lays)
     except Exception as e:
-        return "construction failed: %s: %s" % (type(e).__name__, e)
-    if len(objs) != len(start):
-        return "document shows %d Files paragraphs, built with %d" % (len(objs), len(start))
+        if isinstance(e, ValueError) and any(illformed):
+            return None             # an ill-formed list of the pool reported eagerly
+        return "construction (%s) of the document with Files paragraphs %r, layout %r failed: %s: %s" % (
+            route, paras, start["lay"], type(e).__name__, str(e)[:300])
     cur = [list(ps) for ps in paras]
     hist = []
     for i, e in enumerate(path):
-        if e["op"] == "setfiles":
-            k, ps = e["args"]
-            new = [cstr(cmap, g) for g in ps]
-            try:
-                objs[k - 1].files = new
-            except ValueError:
-                return None         # eager report; afterwards unspecified
-            except Exception as ex:
-                return "step %d: paragraph %d .files = %r raised %s" % (i + 1, k, new, type(ex).__name__)
-            cur[k - 1] = new
-            hist.append("paragraph %d .files = %r" % (k, new))
+        op = e["op"]
+        if op == "find":
+            name = cstr(cmap, e["args"][0])
+            got = doc.find(name)
+            if got != e["res"] and not (e["res"] == -1 and got == e["alt"]):
+                return ("step %d: find_files_paragraph(%r) -> %s, specification says %s (identity of the last matching paragraph "
+                        "= its number in the order the Files paragraphs came into the document, 0 = None, -1 = format error) "
+                        "on Files paragraphs %r; document built via %s with layout %r (0 = stand-alone License paragraph); "
+                        "earlier on this document: %s"
+                        % (i + 1, name, got, e["res"], cur, route, start["lay"], "; ".join(hist[-5:]) or "-"))
+            hist.append("find_files_paragraph(%r) -> %s" % (name, got))
             continue
-        name = cstr(cmap, e["args"][0])
-        got = obs_find(c, name)
-        if got != e["res"] and not (e["res"] == -1 and got == e["alt"]):
-            return ("step %d: find_files_paragraph(%r) -> %s, specification says %s (index of the last matching paragraph, "
-                    "0 = None, -1 = format error) on Files paragraphs %r; earlier on this document: %s"
-                    % (i + 1, name, got, e["res"], cur, "; ".join(hist[-4:]) or "-"))
-        hist.append("find_files_paragraph(%r) -> %s" % (name, got))
+        try:
+            if op in ("setfiles", "rawset"):
+                k, ps = e["args"]
+                new = [cstr(cmap, g) for g in ps]
+                illformed[k - 1] = skey(ps) in bad
+                if op == "rawset":
+                    via = "through the Deb822 its creator kept" if doc.data[k - 1] is not None else "(setter)"
+                    doc.rawset(k - 1, new, rand_seps(r, len(new), True))
+                    what = "paragraph %d Files := %r %s" % (k, new, via)
+                else:
+                    doc.setfiles(k - 1, new)
+                    what = "paragraph %d .files = %r" % (k, new)
+                cur[k - 1] = new
+            elif op == "addfiles":
+                new = [cstr(cmap, g) for g in e["args"][0]]
+                illformed.append(skey(e["args"][0]) in bad)
+                origin = r.choice(ORIGINS)
+                doc.addfiles(new, origin, rand_seps(r, len(new), origin in TEXT_ORIGINS))
+                cur.append(new)
+                what = "add_files_paragraph(%r [%s]) = paragraph %d" % (new, origin, len(cur))
+            elif op == "addlicense":
+                doc.addlicense()
+                what = "add_license_paragraph"
+            elif op == "reparse":
+                kind, to_fd = r.choice(REPARSE_KINDS), r.random() < 0.5
+                if route.startswith("legacy:"):
+                    what = "-"      # what a legacy line decodes to is unspecified: it need not survive a dump
+                else:
+                    doc.reparse(kind, to_fd)
+                    what = "dump(%s) and parse again (%s)" % ("f" if to_fd else "", kind)
+            else:
+                raise core.MachineryError("GlobFind edge with unknown op %r" % (op,))
+        except core.MachineryError:
+            raise
+        except Exception as ex:
+            if isinstance(ex, ValueError) and any(illformed):
+                return None         # eager report; afterwards unspecified
+            return "step %d: %s raised %s: %s; earlier on this document (%s, layout %r): %s" % (
+                i + 1, op, type(ex).__name__, str(ex)[:200], route, start["lay"], "; ".join(hist[-5:]) or "-")
+        hist.append(what)
     return None
 
 
@@ -770,9 +1036,14 @@ def rand_script(rng, nops, big=False):
     if big:
         npar = rng.choice([99, 100, 101]) if many_paras else rng.choice([1, 1, 2])
     paras = [plist() for _ in range(npar)]
-    route = rng.choice(["prog", "prog-set", "text", "text", "lines", "bytes", "legacy:%d" % rng.randrange(10 ** 6)])
+    route = rng.choice(["prog", "prog-set", "prog-ctor", "prog-raw", "prog-text", "prog-mix", "prog-mix", "text", "lines", "bytes",
+                        "form", "form", "form", "legacy:%d" % rng.randrange(10 ** 6)])
     if big:
-        route = rng.choice(["prog", "prog-set", "prog", "prog-set", "text", "bytes"])
+        route = rng.choice(["prog", "prog-set", "prog-mix", "prog-ctor", "text", "bytes", "form"])
+    if route == "form":
+        route = FORMS.plain() if FORMS is not None else "text"
+    if not big and rng.random() < 0.12:     # built from scratch: Copyright(), then add_files_paragraph / add_license_paragraph
+        npar, paras, route = 0, [], "prog"
     order = []
     for k in range(npar):
         if rng.random() < 0.3:
@@ -780,9 +1051,40 @@ def rand_script(rng, nops, big=False):
         order.append(k)
     if rng.random() < 0.3:
         order.append("L")
-    lays = [rand_seps(rng, len(ps), route in TEXTUAL) for ps in paras]
+    laid_out = route in TEXTUAL or route in ("prog-ctor", "prog-raw", "prog-text", "prog-mix")
+    lays = [rand_seps(rng, len(ps), laid_out) for ps in paras]
     ops = []
     cur = [list(ps) for ps in paras]
+
+    def literal(nm):
+        return "".join("\\" + ch if ch in "*?\\" else ch for ch in nm)
+
+    def add_paragraph():
+        """add_files_paragraph with a list that (often) matches names an existing paragraph matches too, then ask"""
+        new = plist() if not big else [rand_pattern(rng, alpha, 4, False)]
+        names = []
+        if cur and rng.random() < 0.75:
+            nm = rand_name(rng, rng.choice(cur), nalpha)
+            if nm and not any(ch.isspace() for ch in nm) and rng.random() < 0.7:
+                new[rng.randrange(len(new))] = literal(nm)     # more specific than the older paragraph
+            else:
+                new[rng.randrange(len(new))] = rng.choice(["*", "*?" if nm else "*", "?" * len(nm) if nm else "*"])
+            names.append(nm)
+        origin = rng.choice(ORIGINS)
+        if rng.random() < 0.35:
+            ops.append(["addlicense"])
+        ops.append(["addfiles", new, origin, rand_seps(rng, len(new), origin in TEXT_ORIGINS)])
+        cur.append(new)
+        names.append(rand_name(rng, new, nalpha))
+        for nm in names:
+            ops.append(["find", nm])
+        if rng.random() < 0.4:
+            if not route.startswith("legacy:"):
+                ops.append(["reparse", rng.choice(REPARSE_KINDS), rng.random() < 0.5])
+            ops.append(["find", rng.choice(names)])
+
+    if npar == 0:
+        add_paragraph()
     if big and not many_paras:          # every pattern of a long list is asked for once: the i-th of n matches
         for k, ps in enumerate(paras):
             for pat in (ps if len(ps) <= 40 else rng.sample(ps, 40)):
@@ -792,8 +1094,17 @@ def rand_script(rng, nops, big=False):
     pending = []                        # direct translations still to be issued (other order of a colliding pair)
     while len(ops) < nops:
         r = rng.random()
+        npar = len(cur)
         k = rng.randrange(npar)
-        if ops and ops[-1][0] in ("matches", "find", "query") and r < 0.18:
+        if not many_paras and npar < 8 and rng.random() < 0.11:
+            add_paragraph()
+        elif rng.random() < 0.05:
+            ops.append(["addlicense"])
+        elif rng.random() < 0.05 and not route.startswith("legacy:"):
+            ops.append(["reparse", rng.choice(REPARSE_KINDS), rng.random() < 0.5])
+        elif rng.random() < 0.06:
+            ops.append(["touch", k, rng.choice(TOUCHES)])
+        elif ops and ops[-1][0] in ("matches", "find", "query") and r < 0.18:
             ops.append(list(ops[-1]))   # the same question again: the answer must not depend on having asked
         elif pending and r < 0.6:
             held = pending.pop(0)
@@ -817,7 +1128,7 @@ def rand_script(rng, nops, big=False):
         elif held is not None and r < 0.3:
             ops.append(["query", rand_name(rng, held, nalpha)])
         elif r < 0.6:
-            ops.append(["matches", k, rand_name(rng, cur[k], nalpha)])
+            ops.append(["matches", k, rand_name(rng, cur[k], nalpha), rng.random() < 0.3])
         elif r < 0.87:
             nm = rand_name(rng, cur[rng.randrange(npar)], nalpha)
             ops.append(["find", nm])
@@ -830,7 +1141,7 @@ def rand_script(rng, nops, big=False):
                            rng.choice(["*", "*?*" if nm else "*", "?" * len(nm) if nm else "*"]))
                 rng.shuffle(new)
                 cur[k] = new
-                ops.append(["setfiles", k, new])
+                ops.append(["setfiles", k, new] if rng.random() < 0.5 else ["rawset", k, new, rand_seps(rng, len(new), True)])
                 ops.append(["find", nm])
         else:
             new = plist()
@@ -839,7 +1150,7 @@ def rand_script(rng, nops, big=False):
                 new = [rand_pattern(rng, alpha, 3, False)[:len(p)].ljust(len(p), rng.choice(alpha)) for p in cur[k]]
                 new = [p if not p.endswith("\\") else p[:-1] + rng.choice(alpha) for p in new]
             cur[k] = new
-            ops.append(["setfiles", k, new])
+            ops.append(["setfiles", k, new] if rng.random() < 0.5 else ["rawset", k, new, rand_seps(rng, len(new), True)])
     return {"route": route, "paras": paras, "order": order, "lays": lays, "ops": ops, "injected_bad": injected[0]}
 
 
@@ -850,24 +1161,22 @@ def cps(s):
 def execute(script):
     """drive the real code through the script and log what it did; returns the trace or
     (None, reason) when the document cannot be set up (not a C16 observable)"""
+    bad_ok = script.get("injected_bad")
     try:
-        c = build_doc(script["route"], script["paras"], script["order"], script["lays"])
-        objs = list(c.all_files_paragraphs())
+        doc = build_doc_ex(script["route"], script["paras"], script["order"], script["lays"])
     except Exception as e:
-        if isinstance(e, ValueError) and script.get("injected_bad"):
+        if isinstance(e, ValueError) and bad_ok:
             return None, "eager"    # an injected ill-formed glob reported when the document is built
         return None, "construction failed: %s: %s" % (type(e).__name__, e)
-    if len(objs) != len(script["paras"]):
-        return None, "document shows %d Files paragraphs, built with %d" % (len(objs), len(script["paras"]))
     events = [{"op": "doc", "d": [[cps(p) for p in ps] for ps in script["paras"]]}]
     rx = None
     for oi, op in enumerate(script["ops"]):
         for ev in events[1:]:
             ev.setdefault("oi", oi - 1)     # index of the call an event belongs to (ignored by TraceGlob)
         if op[0] == "matches":
-            events.append({"op": "matches", "k": op[1] + 1, "n": cps(op[2]), "res": obs_match(objs[op[1]], op[2])})
+            events.append({"op": "matches", "k": op[1] + 1, "n": cps(op[2]), "res": doc.matches(op[1], op[2], len(op) > 3 and op[3])})
         elif op[0] == "find":
-            events.append({"op": "find", "n": cps(op[1]), "res": obs_find(c, op[1])})
+            events.append({"op": "find", "n": cps(op[1]), "res": doc.find(op[1])})
         elif op[0] == "translate":
             got, new = obs_translate(op[1])
             if new is not None:
@@ -879,12 +1188,38 @@ def execute(script):
             events.append({"op": "query", "n": cps(op[1]), "res": obs_query(rx, op[1])})
         else:
             try:
-                objs[op[1]].files = list(op[2])
+                if op[0] == "setfiles":
+                    doc.setfiles(op[1], op[2])
+                    ev = {"op": "setfiles", "k": op[1] + 1, "ps": [cps(p) for p in op[2]]}
+                elif op[0] == "rawset":
+                    doc.rawset(op[1], op[2], op[3])
+                    ev = {"op": "rawset", "k": op[1] + 1, "ps": [cps(p) for p in op[2]]}
+                elif op[0] == "addfiles":
+                    doc.addfiles(op[1], op[2], op[3])
+                    ev = {"op": "addfiles", "ps": [cps(p) for p in op[1]]}
+                elif op[0] == "addlicense":
+                    doc.addlicense()
+                    ev = {"op": "addlicense"}
+                elif op[0] == "reparse":
+                    doc.reparse(op[1], op[2])
+                    ev = {"op": "reparse"}
+                elif op[0] == "touch":
+                    doc.touch(op[1], op[2])
+                    ev = {"op": "touch"}
+                else:
+                    raise core.MachineryError("script with unknown op %r" % (op[0],))
+            except core.MachineryError:
+                raise
             except Exception as e:
-                if isinstance(e, ValueError) and script.get("injected_bad") and len(events) > 1:
+                if isinstance(e, ValueError) and bad_ok and len(events) > 1:
                     break           # reported eagerly: the history ends here
-                return None, "files = %r raised %s" % (op[2], type(e).__name__)
-            events.append({"op": "setfiles", "k": op[1] + 1, "ps": [cps(p) for p in op[2]]})
+                if len(events) > 1:
+                    # an edit the real code refuses on a well-formed document: the history up to here is judged,
+                    # the refusal is recorded as a step the specification does not have
+                    events.append({"op": "refused:" + op[0], "exc": type(e).__name__})
+                    break
+                return None, "%s raised %s" % (op[0], type(e).__name__)
+            events.append(ev)
     for ev in events[1:]:
         ev.setdefault("oi", len(script["ops"]) - 1)
     return {"events": events, "script": script}, None
@@ -937,6 +1272,15 @@ STATIC_CONTROLS = [
     _ctl([[[97]]], {"op": "translate", "ps": [[97], [98]], "res": "ok"}, {"op": "translate", "ps": [[97, 10, 98]], "res": "ok"},
          {"op": "query", "n": [97, 10, 98], "res": "nomatch"}),
     _ctl([[[97]]], {"op": "translate", "ps": [[92]], "res": "ok"}),
+    # the Files field rewritten through the Deb822 handle, the old patterns still answer
+    _ctl([[[42]]], {"op": "rawset", "k": 1, "ps": [[98]]}, {"op": "matches", "k": 1, "n": [97], "res": "match"}),
+    _ctl([[[97]], [[98]]], {"op": "find", "n": [98], "res": 2}, {"op": "rawset", "k": 2, "ps": [[97]]}, {"op": "find", "n": [98], "res": 2}),
+    # an added paragraph is the last one: an older paragraph that matches too must not win (Files, License, Files + add)
+    _ctl([[[42]], [[97, 42]]], {"op": "addfiles", "ps": [[97, 98]]}, {"op": "find", "n": [97, 98], "res": 2}),
+    _ctl([], {"op": "addlicense"}, {"op": "addfiles", "ps": [[42]]}, {"op": "addfiles", "ps": [[97]]}, {"op": "reparse"},
+         {"op": "find", "n": [97], "res": 1}),
+    _ctl([[[97]]], {"op": "addlicense"}, {"op": "touch"}, {"op": "find", "n": [97], "res": 0}),
+    _ctl([[[97]]], {"op": "refused:reparse", "exc": "ValueError"}),
 ]
 
 
@@ -993,6 +1337,9 @@ def run(ctx):
         "trusted: TLC, the renaming, the projections bool(matches()) and identity index of the returned paragraph",
     ]
     from debian import copyright as C   # noqa: F401  (import errors are machinery failures)
+    global SCRATCH, FORMS
+    SCRATCH = ctx.work
+    FORMS = fm.Schedule(random.Random("forms-%r" % rng.random()), quick)
 
     t_start = time.time()
     # ---- 1. TLC: design-level checks, negative controls, emission (concurrently)
@@ -1024,10 +1371,19 @@ def run(ctx):
         dict(name="find-lts", module="GlobFind", cfg="MC_GlobFind_quick.cfg" if quick else "MC_GlobFind.cfg", tags={"EDGE"}),
         dict(name="neg-lookupmemo", module="GlobFind", expect="FindIsLast",
              cfg=cfg_text("MC_GlobFind_quick.cfg", LookupMemo="TRUE", Emit='"none"')),
+        dict(name="neg-filesendcounter", module="GlobFind", expect="FindIsLast",
+             cfg=cfg_text("MC_GlobFind_quick.cfg", props=["FindIsLast"], FilesEndCounter="TRUE", Emit='"none"')),
+        dict(name="neg-filesendcounter-order", module="GlobFind", expect="ImplOrder",
+             cfg=cfg_text("MC_GlobFind_quick.cfg", inv=["ImplOrder"], FilesEndCounter="TRUE", Emit='"none"')),
+        dict(name="neg-scanstopsatlicense", module="GlobFind", expect="FindIsLast",
+             cfg=cfg_text("MC_GlobFind_quick.cfg", props=["FindIsLast"], ScanStopsAtLicense="TRUE", Emit='"none"')),
+        dict(name="neg-convmemo", module="GlobCache", expect="SameResult",
+             cfg=cfg_text("MC_GlobCache.cfg", props=["SameResult"], ConvMemo="TRUE", Emit='"none"')),
     ]
     if quick:       # one run: design check of the small pool and its LTS; fewer negative controls (all in thorough)
         jobs.append(dict(name="emit-memo", module="GlobMemo", cfg="MC_GlobMemo_quick.cfg", tags={"EDGE"}))
-        jobs = [j for j in jobs if j["name"] not in ("neg-nodotall", "neg-findfirst", "neg-stalecache", "neg-lookupmemo")]
+        jobs = [j for j in jobs if j["name"] not in ("neg-nodotall", "neg-findfirst", "neg-stalecache", "neg-lookupmemo",
+                                                     "neg-keybeforetranslate", "neg-filesendcounter-order", "neg-scanstopsatlicense")]
     else:
         jobs += [dict(name="memo", module="GlobMemo", cfg="MC_GlobMemo.cfg"),
                  dict(name="emit-memo", module="GlobMemo", cfg="MC_GlobMemo_emit.cfg", tags={"EDGE"})]
@@ -1045,6 +1401,10 @@ def run(ctx):
             dict(name="emit-match-b", module="Glob", tags={"CASE"},
                  cfg=cfg_text("MC_Glob_bnd_b.cfg", inv=["EmitCase"], SPEC="ESpec", Emit='"match"')),
         ]
+    if os.environ.get("VERIF_C16_SKIP_DESIGN"):
+        # debugging aid (like VERIF_C16_LEGS): only the emission runs the binding legs need; the design checks and
+        # negative controls do not depend on the seed or on the tree under test
+        jobs = [j for j in jobs if j.get("tags")]
     pipeline = None
     if quick:
         # pipelined: the emission runs start first and the replay legs begin as soon as the emission they
@@ -1101,7 +1461,7 @@ def run(ctx):
         emissions += [("emit-match-3", all_names(sigma8, 2))]
     if not quick:
         emissions += [("emit-match-a", all_names(sigma8, 3)), ("emit-match-b", all_names(sigma8, 3))]
-    routes = ["prog", "text", "prog-set", "lines"]
+    routes = ["prog", "text", "prog-set", "lines", "prog-ctor", "bytes", "prog-raw", "prog-text"]
     n_lists = n_pairs = 0
     sampled = set()
     size_every, size_phase = (22, 3) if quick else (6, 1)     # one size-stressed concretization per that many cases
@@ -1172,9 +1532,11 @@ def run(ctx):
                 stats["unrepresentable_lists"] = stats.get("unrepresentable_lists", 0) + 1
                 continue
             if ename == "emit-match":
-                plan = [("canon", routes[idx % 2]), ("rand", routes[(idx + 1) % 4]), ("case", routes[(idx + 2) % 4])]
+                plan = [("canon", routes[idx % 2]), ("rand", routes[(idx + 1) % 8]), ("case", routes[(idx + 4) % 8])]
             else:
-                plan = [("canon", "prog"), ("rand", routes[idx % 4])]
+                plan = [("canon", "prog"), ("rand", routes[idx % 8])]
+            if idx % 10 == 3:       # the paragraph arrives through another kind of file object / sequence
+                plan[-1] = (plan[-1][0], FORMS.plain())
             if idx % 8 == 2:        # bytes document with a legacy-encoded line next to non-ASCII UTF-8 patterns
                 plan.append(("uni", "legacy:%d" % rng.randrange(10 ** 6)))
             for kind, route in plan:
@@ -1208,7 +1570,8 @@ def run(ctx):
     n_docs = n_finds = 0
     doc_size_every = 25 if quick else 8
     n_bigdoc, n_kdoc, max_kdoc = [0], [0], (2 if quick else 12)
-    droutes = ["prog", "text", "lines", "prog-set"]
+    n_wf = [0]
+    droutes = ["prog", "text", "lines", "prog-set", "prog-mix", "bytes", "prog-ctor", "prog-raw"]
     for idx, dc in enumerate(docs if "doc" in LEGS else []):
         if nviol[0] >= 5:
             break
@@ -1220,9 +1583,15 @@ def run(ctx):
             stats["unrepresentable_docs"] = stats.get("unrepresentable_docs", 0) + 1
             continue
         n_docs += 1
-        dplan = [("canon", droutes[idx % 4]), ("rand", droutes[(idx + 1) % 4])]
+        dplan = [("canon", droutes[idx % 4]), ("rand", droutes[(idx + 1) % 8])]
         if idx % 3 == 1:
             dplan.append(("uni", "legacy:%d" % rng.randrange(10 ** 6)))
+        if idx % 4 == 2:        # input forms: every kind of file object / sequence of lines Copyright() accepts
+            dplan[1] = ("rand", FORMS.plain())
+        if all(x[1] != -1 for x in fexp):       # (a construction failure of an ill-formed document is not judged)
+            n_wf[0] += 1
+            if n_wf[0] % 10 == 7:   # a line end exactly at / next to a power-of-two offset of the input
+                dplan.append(("rand", FORMS.aligned_route(5 * len(d))))
         for kind, route in dplan:
             cmap = conc_map(rng, kind)
             order = []
@@ -1301,12 +1670,13 @@ def run(ctx):
             break
         path = paths[e["_f"]] + [e]
         cmap = conc_map(rng, rng.choice(["canon", "rand", "case"]))
-        msg = run_cache_path(inits[0]["files"], path, cmap, "prog", bad_lists)
+        route = ["prog", "prog-ctor", "prog-raw", "prog-text"][n_beh % 4]
+        msg = run_cache_path(inits[0]["files"], path, cmap, route, bad_lists)
         ctx.case_seen(("cache-edge", e["_f"], e["op"], skey(e["args"])), e["op"] == "matches")
         n_beh += 1
         if msg:
             report({"kind": "cache", "start": inits[0]["files"], "path": [strip(x) for x in path], "cmap": jmap(cmap),
-                    "bad": bad_lists}, msg)
+                    "route": route, "bad": bad_lists}, msg)
     init_keys = sorted({skey(s) for s in inits})
     for w in range((150 if quick else 1500) if "cache" in LEGS else 0):
         if nviol[0] >= 5:
@@ -1314,7 +1684,8 @@ def run(ctx):
         sk = rng.choice(init_keys)
         path = g.walk(rng, sk, 14, weight=lambda x: 2 if x["op"] == "matches" else 1)
         cmap = conc_map(rng, rng.choice(["canon", "rand", "case"]))
-        route = rng.choice(["prog", "text", "prog-set", "bytes", "legacy:%d" % rng.randrange(10 ** 6)])
+        route = rng.choice(["prog", "text", "prog-set", "bytes", "prog-ctor", "prog-ctor", "prog-raw", "prog-text", "prog-iter",
+                            "legacy:%d" % rng.randrange(10 ** 6)])
         msg = run_cache_path(g.states[sk]["files"], path, cmap, route, bad_lists)
         ctx.case_seen(("cache-walk", w), True)
         n_beh += 1
@@ -1345,15 +1716,17 @@ def run(ctx):
                     break
                 n1, n2, n3 = [list(x) for x in rng.sample(qnames, 3)]
                 q = rng.choice(["matches", "find"])
+                sf = [rng.choice(["setfiles", "rawset"]) for _ in range(3)]
                 steps = [(q, n1), ("matches", n1), ("find", n1), ("matches", n2), ("find", n3),
-                         ("setfiles", lg), ("matches", n1), ("find", n2), ("setfiles", b),
+                         (sf[0], lg), ("matches", n1), ("find", n2), (sf[1], b),
                          ("find", n1), ("matches", n1), ("matches", n3), ("find", n2)]
                 start = rng.choice([b, lg])
                 if start is lg:
-                    steps = [("matches", n2), ("setfiles", b)] + steps
+                    steps = [("matches", n2), (sf[2], b)] + steps
                 path = follow(skey({"files": start, "key": []}), steps)
                 cmap = conc_map(rng, rng.choice(["canon", "rand", "case"]))
-                route = rng.choice(["prog", "text", "prog-set", "bytes", "legacy:%d" % rng.randrange(10 ** 6)])
+                route = rng.choice(["prog", "text", "prog-set", "bytes", "prog-ctor", "prog-raw", "prog-text",
+                                    "legacy:%d" % rng.randrange(10 ** 6)])
                 msg = run_cache_path(start, path, cmap, route, bad_lists)
                 ctx.case_seen(("cache-error-path", bk, skey(lg), rep_), True)
                 n_beh += 1
@@ -1432,53 +1805,81 @@ def run(ctx):
     ctx.extra["memo_behaviours_replayed"] = n_memo
     n_beh += n_memo
 
-    # ---- 4c. spec -> code: lookups on ONE document whose Files fields are edited in place (GlobFind):
-    # every lookup, Files of any paragraph re-assigned, the same lookup again; plus random walks
+    # ---- 4c. spec -> code: histories of ONE document (GlobFind): Files re-assigned in place (setter / through the
+    # Deb822 handle), paragraphs added behind the last Files paragraph of documents PARSED with stand-alone License
+    # paragraphs anywhere in between, dump + parse again; every lookup must return the paragraph with the identity
+    # the specification says.  Every state of the model is a document the history may start from.
     f_edges = res["find-lts"].printed.get("EDGE", [])
+    t_memo = time.time()
     if not f_edges:
         raise core.MachineryError("no EDGE lines from GlobFind")
-    gf = LTS(f_edges, f_edges[0]["from"])
+    gf = LTS(f_edges, {"d": [], "lay": []})
     ctx.extra["find_lts"] = {"states": len(gf.states), "edges": len(gf.edges)}
     for e in gf.edges:
         ops["doc-" + e["op"]] = ops.get("doc-" + e["op"], 0) + 1
+    bad_f = sorted({skey(e["from"]["d"][0]) for e in gf.edges
+                    if e["op"] == "find" and e["res"] == -1 and len(e["from"]["d"]) == 1})
     n_fh = 0
+    find_routes = {}
 
     def find_run(sk, path, tag):
         nonlocal n_fh
         start = gf.states[sk]
         cmap = conc_map(rng, rng.choice(["canon", "rand", "case"]))
-        route = rng.choice(["prog", "text", "lines", "prog-set", "bytes", "legacy"])
+        if n_fh % 40 == 4 and start["lay"]:
+            route = FORMS.aligned_route(4 * len(start["lay"]))
+        else:
+            route = rng.choice(["text", "lines", "bytes", "legacy", "form", "form", "prog", "prog-set", "prog-ctor",
+                                "prog-raw", "prog-text", "prog-mix", "prog-mix", "prog-borrow", "prog-iter"])
+        if route.startswith("prog") and not trailing_licenses_only(start["lay"]):
+            route = rng.choice(["text", "lines", "bytes", "form"])      # only a parser gives this layout
         if route == "legacy":
             route, cmap = "legacy:%d" % rng.randrange(10 ** 6), conc_map(rng, "uni")
-        order = []
-        for k in range(len(start)):
-            if rng.random() < 0.2:
-                order.append("L")
-            order.append(k)
-        lays = [rand_seps(rng, len(ps), route in TEXTUAL) for ps in start]
-        msg = run_find_path(start, path, cmap, route, order, lays)
+        elif route == "form":
+            route = FORMS.plain()
+        find_routes[route.split(":")[0]] = find_routes.get(route.split(":")[0], 0) + 1
+        lays = [rand_seps(rng, len(ps), route in TEXTUAL or route in ("prog-ctor", "prog-raw", "prog-text", "prog-mix", "prog-borrow", "prog-iter"))
+                for ps in start["d"]]
+        seed = rng.randrange(10 ** 9)
+        msg = run_find_path(start, path, cmap, route, lays, seed, bad_f)
         ctx.case_seen(tag, True)
         n_fh += 1
         if msg:
             report({"kind": "findhist", "start": start, "path": [strip(x) for x in path], "cmap": jmap(cmap),
-                    "route": route, "order": order, "lays": lays}, msg)
+                    "route": route, "lays": lays, "seed": seed, "bad": bad_f}, msg)
 
-    for sk in (sorted(gf.states) if "find" in LEGS else []):
-        outs = gf.out.get(sk, [])
-        for e1 in [x for x in outs if x["op"] == "find"]:
-            for e2 in [x for x in outs if x["op"] == "setfiles" and x["_t"] != sk]:
-                if nviol[0] >= 5:
-                    break
-                e3 = [x for x in gf.out[e2["_t"]] if x["op"] == "find" and x["args"] == e1["args"]][0]
-                extra = gf.walk(rng, e2["_t"], 3)
-                find_run(sk, [e1, e2, e3] + extra, ("findhist", sk, skey(e1["args"]), skey(e2["args"])))
+    def same_find(sk, e1):
+        return [x for x in gf.out[sk] if x["op"] == "find" and x["args"] == e1["args"]][0]
+
     keys_f = sorted(gf.states)
-    for w in range((100 if quick else 1000) if "find" in LEGS else 0):
-        if nviol[0] >= 5:
-            break
-        sk = rng.choice(keys_f)
-        find_run(sk, gf.walk(rng, sk, 14), ("findwalk", w))
+    if "find" in LEGS:
+        for sk in keys_f:
+            if nviol[0] >= 5:
+                break
+            outs = gf.out.get(sk, [])
+            finds = [x for x in outs if x["op"] == "find"]
+            edits = [x for x in outs if x["op"] != "find" and (x["_t"] != sk or x["op"] in ("reparse", "rawset"))]
+            if not finds or not edits:
+                raise core.MachineryError("GlobFind state %s without lookups / edits" % sk)
+            # every added paragraph: all names before and after, then the document dumped and parsed again
+            for e2 in [x for x in outs if x["op"] == "addfiles"]:
+                t = e2["_t"]
+                after = [x for x in gf.out[t] if x["op"] == "find"]
+                rep = [x for x in gf.out[t] if x["op"] == "reparse"][0]
+                find_run(sk, finds[:2] + [e2] + after + [rep] + after + gf.walk(rng, t, 2), ("find-add", sk, skey(e2["args"])))
+            # a lookup, one edit, the same lookup again, and on from there
+            for e2 in rng.sample(edits, min(len(edits), 1 if quick else 4)):
+                e1 = rng.choice(finds)
+                find_run(sk, [e1, e2, same_find(e2["_t"], e1)] + gf.walk(rng, e2["_t"], 4),
+                         ("findhist", sk, skey(e1["args"]), e2["op"], skey(e2["args"])))
+        for w in range(150 if quick else 2000):
+            if nviol[0] >= 5:
+                break
+            sk = rng.choice(keys_f) if w % 3 else gf.init
+            find_run(sk, gf.walk(rng, sk, 14, weight=lambda x: 3 if x["op"] in ("addfiles", "addlicense", "reparse") else 1),
+                     ("findwalk", w))
     ctx.extra["find_histories_replayed"] = n_fh
+    ctx.extra["find_history_routes"] = find_routes
     n_beh += n_fh
 
     t_cache = time.time()
@@ -1504,14 +1905,22 @@ def run(ctx):
         finish_jobs()
     rejected, info = validate(ctx, traces)
     ctx.extra["phase_wall_s"] = {"tlc_design_and_emission": round(t_tlc - t_start, 1), "replay_match": round(t_match - t_tlc, 1),
-                                 "replay_find": round(t_doc - t_match, 1), "replay_cache": round(t_cache - t_doc, 1),
+                                 "replay_find": round(t_doc - t_match, 1), "replay_cache_memo": round(t_memo - t_doc, 1), "replay_find_histories": round(t_cache - t_memo, 1),
                                  "record_traces": round(t_rec - t_cache, 1), "validate_traces": round(time.time() - t_rec, 1)}
+    try:
+        import resource
+        ru = resource.getrusage(resource.RUSAGE_SELF)
+        ctx.extra["harness_cpu_s"] = round(ru.ru_utime + ru.ru_stime, 1)       # without the TLC child processes
+    except Exception:
+        pass
     evs = {}
     for t in traces:
         for e in t["events"]:
             key = e["op"] + (":" + str(e["res"]) if e["op"] == "matches" else "")
             evs[key] = evs.get(key, 0) + 1
     ctx.extra["trace_events"] = evs
+    ctx.extra["file_object_kinds"] = dict(sorted(FORMS.stats["kinds"].items()))
+    ctx.extra["aligned_cases"] = dict(sorted(FORMS.stats["aligned"].items()))     # "<2^k><delta>": documents built
     ctx.extra["traces_recorded"] = len(traces)
     ctx.extra["traces_rejected"] = len(rejected)
     ctx.extra.update(stats)
@@ -1532,19 +1941,26 @@ def run(ctx):
         cur = [list(ps) for ps in t["script"]["paras"]]
         held = None
         for o in t["script"]["ops"][:oi or 0]:
-            if o[0] == "setfiles":
+            if o[0] in ("setfiles", "rawset"):
                 cur[o[1]] = o[2]
+            elif o[0] == "addfiles":
+                cur.append(o[1])
             elif o[0] == "translate":
                 held = o[1]
         where = ("the regex of globs_to_re(%r); earlier direct translations in this history: %r"
                  % (held, [o[1] for o in t["script"]["ops"][:oi or 0] if o[0] == "translate"])
-                 if op and op[0] in ("query", "translate") else "the document with Files paragraphs %r" % (cur,))
+                 if op and op[0] in ("query", "translate") else
+                 "the document (built via %s) with Files paragraphs %s (a lookup returns the IDENTITY of a paragraph: its number in "
+                 "the order the paragraphs came into the document); the calls before it: %s"
+                 % (t["script"]["route"], brief(cur), "; ".join(brief(repr(o), 90) for o in t["script"]["ops"][max(0, (oi or 0) - 6):oi or 0]) or "-"))
         report({"kind": "trace", "script": t["script"], "first_unexplained_event": at + 1},
                "recorded history not explained by the Glob reference: event %d %r = call %r on %s"
                % (at + 1, ev, op, where))
 
 
 def replay(ctx, case):
+    global SCRATCH
+    SCRATCH = ctx.work
     kind = case.get("kind")
     if kind == "match":
         ps = [tuple(p) for p in case["ps"]]
@@ -1592,7 +2008,7 @@ def replay(ctx, case):
     if kind == "memo":
         return run_memo_path(case["path"], unjmap(case["cmap"]))
     if kind == "findhist":
-        return run_find_path(case["start"], case["path"], unjmap(case["cmap"]), case["route"], case["order"], case["lays"])
+        return run_find_path(case["start"], case["path"], unjmap(case["cmap"]), case["route"], case["lays"], case["seed"], case.get("bad", ()))
     if kind == "doc":
         d = [[tuple(p) for p in ps] for ps in case["doc"]]
         fexp = [(tuple(a), b, c) for a, b, c in case["f"]]
